@@ -40,8 +40,16 @@ def drift(case, obs):
     return out
 
 
+def prepare(case):
+    # a second function that declares labels of the same names precedes the body (jumps into another function)
+    c = dict(case)
+    c["decoy"] = ["a", "b"]
+    return c
+
+
 CFG = {
     "module": "MC_LabelScope",
+    "prepare": prepare,
     "mc_cfg": {"quick": "MC_LabelScope_quick.cfg", "thorough": "MC_LabelScope_thorough.cfg"},
     "workers": 8,
     "compare": compare,
@@ -61,7 +69,7 @@ CFG = {
     "assumptions": [
         "the renderer puts one item per line; line <-> item index is checked by projecting the parsed AST back",
         "conditions are `x == x`; jump legality does not depend on the condition",
-        "jumps into other functions are covered only as missing labels (labels are per function in the code: label_stack is pushed/popped per body)",
+        "jumps into other functions: every body is preceded by a function `decoy` that declares labels of all names used; the rule never makes them legal targets",
         "TLC's evaluation of the rule R (spec/LabelScope.tla) is the oracle; the algorithm model A only yields MODEL-DRIFT notes",
     ],
 }
